@@ -90,7 +90,7 @@ def _limit_worker():
     operand, say) gets a MemoryError -- an outcome the checks record -- instead of exhausting the host."""
     try:
         import resource
-        cap = int(os.environ.get("VERIF_WORKER_AS_GB", "6")) << 30
+        cap = int(os.environ.get("VERIF_WORKER_AS_GB", "12")) << 30
         soft, hard = resource.getrlimit(resource.RLIMIT_AS)
         if hard == resource.RLIM_INFINITY or cap <= hard:
             resource.setrlimit(resource.RLIMIT_AS, (cap, hard))
